@@ -354,6 +354,44 @@ pub fn run_tree(pid: &str, case: &str, xot: &Xot, reg: &Reg, root: Node, queries
     }
 }
 
+/// an element INSIDE a tree serialised on its own (C01): the model sees the whole tree and the node's pre-order index (the
+/// inherited declarations are part of what is written); the oracle compares the reparsed element with the subtree by expanded
+/// names, attributes and content — the declarations copied onto the top element are not part of the comparison
+pub fn run_tree_at(pid: &str, case: &str, xot: &Xot, reg: &Reg, root: Node, node: Node, out: &mut Out, stats: &mut Stats) {
+    let text = print_tree(xot, reg, root);
+    let (all, index) = preorder(xot, root);
+    let _ = all;
+    let ni = match index.get(&node) { Some(i) => *i, None => return };
+    let p = RtParams { ser: SerParams { cdata: vec![], unescaped_gt: false, suppress: vec![] }, decl: None, indent: false };
+    let cid = format!("{}n{}", case, ni);
+    let o = observe_rt(xot, reg, node, &p);
+    let line = format!("{} {} | {} | {}@{} | {}", cid, reg.tables(), text, ni, rt_params_text(&p), o.line_tail);
+    out.case(&line);
+    stats.case(&line, true);
+    out.imp(&format!("{} {}", cid, rt_obs_text(&o)));
+    stats.bump("inner_node.serialised");
+    // the domain test looks at the whole tree: the node is written with declarations it inherits
+    if representable(xot, root).is_some() { return; }
+    if let (Ok(s), Some(rp)) = (&o.ser, &o.reparsed) {
+        match rp {
+            Parsed::Panic => out.fail(&cid, "reparse-panic", &format!("parsing {:?} panicked", s)),
+            Parsed::Err(e) => out.fail(&cid, "inner-node-reparse-rejected", &format!("the serialisation {:?} of an inner element is rejected: {}", s, error_text(e))),
+            Parsed::Ok { xot: x2, root: r2, .. } => {
+                let strip = |v: Vec<String>| -> Vec<String> { v.into_iter().filter(|t| !t.starts_with('N')).collect() };
+                let el2 = x2.children(*r2).find(|c| x2.is_element(*c));
+                if let Some(e2) = el2 {
+                    let a = strip(canon(xot, node));
+                    let b = strip(canon(x2, e2));
+                    if a != b {
+                        let i = a.iter().zip(b.iter()).position(|(x, y)| x != y).unwrap_or(a.len().min(b.len()));
+                        out.fail(&cid, "inner-node-roundtrip-differs", &format!("source has {:?} where the reparsed element has {:?} (position {}) — written as {:?}", a.get(i), b.get(i), i, s));
+                    }
+                }
+            }
+        }
+    }
+}
+
 /// every namespaced element name has some binding in scope and every namespaced attribute name a prefixed one
 pub fn needs_no_prefix(xot: &Xot, root: Node) -> bool {
     for n in xot.descendants(root) {
@@ -535,6 +573,13 @@ pub fn main_for(pid: &str) {
         let nq = if options { 4 } else { 1 };
         let queries: Vec<RtParams> = (0..nq).map(|_| random_rt_params(&mut r, &pool, options)).collect();
         run_tree(pid, &format!("c{}", k), &xot, &reg, root, &queries, &mut out, &mut stats, route_name);
+        if pid == "C01" {
+            // ... and up to two elements inside the tree, each serialised on its own
+            let inner: Vec<Node> = xot.descendants(root).filter(|n| xot.is_element(*n) && xot.parent(*n).map(|p| xot.is_element(p)).unwrap_or(false)).collect();
+            if !inner.is_empty() {
+                for _ in 0..2 { let n = *r.pick(&inner); run_tree_at(pid, &format!("c{}", k), &xot, &reg, root, n, &mut out, &mut stats); }
+            }
+        }
     }
     out.finish(&stats);
 }
